@@ -12,7 +12,9 @@
  *   - success: no non-warning callback; for every calibration: type is one of
  *     the eight public types, rows, columns >= 1 and compatible with the type
  *     (vnacal_new(3): T types need rows <= columns, U types, UE14 and E12 need
- *     rows >= columns), frequencies >= 0 and strictly ascending (a NaN is not
+ *     rows >= columns), every node the loader has to read has the YAML kind
+ *     the format prescribes (independent node-kind model below),
+ *     frequencies >= 0 and strictly ascending (a NaN is not
  *     ascending), fmin/fmax equal the ends of the vector, z0 and every error
  *     term readable (terms through vnacal_internal.h: there is no public term
  *     getter), property trees readable through the public API.  If at least
@@ -45,7 +47,104 @@ typedef struct scan_result {
     bool sr_huge;
     bool sr_has_data;		/* YAML parses and some calibration has >= 1 data entry */
     bool sr_yaml_ok;
+    char sr_kind_error[120];	/* non-empty: a node the loader must visit has the wrong YAML kind */
 } scan_result_t;
+
+/*
+ * Independent model of the node kinds of a calibration file (vnacal(3) file
+ * format as written by vnacal_save): which nodes a successful load has to
+ * read, and what kind (scalar / sequence / mapping) each must be.  Only
+ * "wrong kind => must not load" is concluded from it; counts and values are
+ * left to the loader.
+ */
+static const char *scalar_of(yaml_document_t *doc, int id);
+
+typedef enum { CT_NONE, CT_T8, CT_U8, CT_TE10, CT_UE10, CT_T16, CT_U16, CT_UE14, CT_E12 } cal_kind_t;
+
+static cal_kind_t cal_kind_of(const char *name)
+{
+    static const struct { const char *n; cal_kind_t k; } table[] = {
+	{ "T8", CT_T8 }, { "U8", CT_U8 }, { "TE10", CT_TE10 }, { "UE10", CT_UE10 },
+	{ "T16", CT_T16 }, { "U16", CT_U16 }, { "UE14", CT_UE14 }, { "E12", CT_E12 },
+    };
+
+    for (size_t i = 0; i < sizeof(table) / sizeof(table[0]); ++i)
+	if (strcasecmp(name, table[i].n) == 0)
+	    return table[i].k;
+    return CT_NONE;
+}
+
+/* depth 0: scalar; depth 1: sequence of scalars; depth 2: sequence of sequences of scalars; ... */
+static bool nested_ok(yaml_document_t *doc, yaml_node_t *n, int depth)
+{
+    if (n == NULL)
+	return false;
+    if (depth == 0)
+	return n->type == YAML_SCALAR_NODE;
+    if (n->type != YAML_SEQUENCE_NODE)
+	return false;
+    for (yaml_node_item_t *it = n->data.sequence.items.start; it < n->data.sequence.items.top; ++it)
+	if (!nested_ok(doc, yaml_document_get_node(doc, *it), depth - 1))
+	    return false;
+    return true;
+}
+
+/* the matrices a load of this type reads, with their nesting depth */
+static void check_entry_kinds(yaml_document_t *doc, yaml_node_t *entry, cal_kind_t kind, bool version0, scan_result_t *sr)
+{
+    static const struct { cal_kind_t kind; const char *keys[5]; int depth[5]; } table[] = {
+	{ CT_T8,   { "ts", "ti", "tx", "tm", NULL }, { 1, 1, 1, 1, 0 } },
+	{ CT_TE10, { "ts", "ti", "tx", "tm", "el" }, { 1, 1, 1, 1, 2 } },
+	{ CT_U8,   { "um", "ui", "ux", "us", NULL }, { 1, 1, 1, 1, 0 } },
+	{ CT_UE10, { "um", "ui", "ux", "us", "el" }, { 1, 1, 1, 1, 2 } },
+	{ CT_T16,  { "ts", "ti", "tx", "tm", NULL }, { 2, 2, 2, 2, 0 } },
+	{ CT_U16,  { "um", "ui", "ux", "us", NULL }, { 2, 2, 2, 2, 0 } },
+	{ CT_UE14, { "um", "ui", "ux", "us", "el" }, { 2, 2, 2, 2, 2 } },
+	{ CT_E12,  { "el", "er", "em", NULL, NULL }, { 2, 2, 2, 0, 0 } },
+    };
+    yaml_node_t *last[5] = { NULL, NULL, NULL, NULL, NULL }, *last_e = NULL;
+    const char *const *keys = NULL;
+    const int *depth = NULL;
+
+    if (entry == NULL || entry->type != YAML_MAPPING_NODE) {
+	snprintf(sr->sr_kind_error, sizeof(sr->sr_kind_error), "an entry of a \"data\" sequence is not a mapping");
+	return;
+    }
+    for (size_t i = 0; i < sizeof(table) / sizeof(table[0]); ++i) {
+	if (table[i].kind == kind) {
+	    keys = table[i].keys;
+	    depth = table[i].depth;
+	}
+    }
+    for (yaml_node_pair_t *p = entry->data.mapping.pairs.start; p < entry->data.mapping.pairs.top; ++p) {
+	const char *k = scalar_of(doc, p->key);
+	yaml_node_t *v = yaml_document_get_node(doc, p->value);
+
+	if (k == NULL)
+	    continue;
+	if (strcmp(k, "f") == 0 && (v == NULL || v->type != YAML_SCALAR_NODE)) {
+	    snprintf(sr->sr_kind_error, sizeof(sr->sr_kind_error), "a frequency \"f\" is not a scalar");
+	    return;
+	}
+	if (strcmp(k, "e") == 0)
+	    last_e = v;
+	for (int j = 0; keys != NULL && j < 5 && keys[j] != NULL; ++j)
+	    if (strcmp(k, keys[j]) == 0)
+		last[j] = v;		/* repeated key: the loader keeps the last one */
+    }
+    if (version0) {
+	if (last_e != NULL && !nested_ok(doc, last_e, 3))
+	    snprintf(sr->sr_kind_error, sizeof(sr->sr_kind_error), "legacy \"e\" is not a sequence of sequences of 3-term sequences of scalars");
+	return;
+    }
+    for (int j = 0; keys != NULL && j < 5 && keys[j] != NULL; ++j) {
+	if (last[j] != NULL && !nested_ok(doc, last[j], depth[j])) {
+	    snprintf(sr->sr_kind_error, sizeof(sr->sr_kind_error), "error term \"%s\" does not have the node kinds of a %s", keys[j],
+		    depth[j] == 1 ? "vector of scalars" : "matrix of scalars");
+	    return;
+	}
+    }
+}
 
 static const char *scalar_of(yaml_document_t *doc, int id)
 {
@@ -63,8 +162,28 @@ static void scan_input(const uint8_t *data, size_t size, scan_result_t *sr)
     size_t skip = 0;
     yaml_node_t *root;
     double total = 0.0;
+    bool legacy_sets = false;	/* "#VNACAL 2.x" (= version 0.2): E12 only, "e" matrices, calibrations also under "sets" */
+#define legacy_v0 legacy_sets
 
     memset(sr, 0, sizeof(*sr));
+    {
+	char line[81];
+	size_t n = size < 80 ? size : 80;
+	int major, minor;
+
+	for (size_t i = 0; i < n; ++i) {	/* what fgets(line, 81) returns */
+	    if (data[i] == '\n') {
+		n = i + 1;
+		break;
+	    }
+	}
+	memcpy(line, data, n);
+	line[n] = '\0';
+	if (sscanf(line, "#VNACal %d.%d", &major, &minor) == 2)
+	    legacy_sets = major == 0;
+	else if (sscanf(line, "#VNACAL %d.%d", &major, &minor) == 2)
+	    legacy_sets = major == 2;
+    }
     /* the loader takes the first line (at most 80 bytes) with fgets */
     while (skip < size && skip < 80 && data[skip] != '\n')
 	++skip;
@@ -105,13 +224,18 @@ static void scan_input(const uint8_t *data, size_t size, scan_result_t *sr)
 	    const char *key = scalar_of(&doc, p->key);
 	    yaml_node_t *seq = yaml_document_get_node(&doc, p->value);
 
+	    bool visited;
+
 	    if (key == NULL || (strcmp(key, "calibrations") != 0 && strcmp(key, "sets") != 0))
 		continue;
 	    if (seq == NULL || seq->type != YAML_SEQUENCE_NODE)
 		continue;
+	    visited = strcmp(key, "calibrations") == 0 || legacy_sets;
 	    for (yaml_node_item_t *it = seq->data.sequence.items.start; it < seq->data.sequence.items.top; ++it) {
 		yaml_node_t *cal = yaml_document_get_node(&doc, *it);
 		double r = 0, c = 0, f = 0;
+		yaml_node_t *last_data = NULL;
+		cal_kind_t kind = legacy_v0 ? CT_E12 : CT_NONE;
 
 		if (cal == NULL || cal->type != YAML_MAPPING_NODE)
 		    continue;
@@ -130,6 +254,22 @@ static void scan_input(const uint8_t *data, size_t size, scan_result_t *sr)
 		    if (strcmp(k, "data") == 0 && vn != NULL && vn->type == YAML_SEQUENCE_NODE &&
 			    vn->data.sequence.items.top > vn->data.sequence.items.start)
 			sr->sr_has_data = true;
+		    if (strcmp(k, "data") == 0)
+			last_data = vn;		/* a repeated key: the loader keeps the last one */
+		    if (v != NULL && strcmp(k, "type") == 0 && !legacy_v0)
+			kind = cal_kind_of(v);
+		    if (visited && v == NULL && sr->sr_kind_error[0] == '\0' && (strcmp(k, "rows") == 0 || strcmp(k, "columns") == 0 ||
+				strcmp(k, "frequencies") == 0 || strcmp(k, "name") == 0 || strcmp(k, "type") == 0 || strcmp(k, "z0") == 0))
+			snprintf(sr->sr_kind_error, sizeof(sr->sr_kind_error), "\"%s\" of a calibration is not a scalar", k);
+		}
+		if (visited && last_data != NULL && sr->sr_kind_error[0] == '\0') {
+		    if (last_data->type != YAML_SEQUENCE_NODE) {
+			snprintf(sr->sr_kind_error, sizeof(sr->sr_kind_error), "\"data\" is not a sequence");
+		    } else {
+			for (yaml_node_item_t *e = last_data->data.sequence.items.start;
+				e < last_data->data.sequence.items.top && sr->sr_kind_error[0] == '\0'; ++e)
+			    check_entry_kinds(&doc, yaml_document_get_node(&doc, *e), kind, legacy_v0, sr);
+		    }
 		}
 		/* T16/U16 have (rows+columns)^2 terms, the others fewer */
 		total += (r + c + 1) * (r + c + 1) * (f < 1 ? 1 : f);
@@ -414,6 +554,8 @@ int LLVMFuzzerTestOneInput(const uint8_t *data, size_t size)
 	return 0;
     }
     fz_check_success("vnacal_load", &el);
+    /* independent node-kind model: a file with a node of the wrong YAML kind where the loader has to read must not load */
+    FZ_CHECK(sr.sr_kind_error[0] == '\0', "C09.vnacal_wrong_node_kind_accepted", "vnacal_load accepted a file in which %s", sr.sr_kind_error);
     fz_count(FZC_LOADED_OK);
     if (size >= 7 && memcmp(data, "#VNACAL", 7) == 0)
 	fz_count(FZC_AUX3);
@@ -474,6 +616,7 @@ int LLVMFuzzerTestOneInput(const uint8_t *data, size_t size)
 }
 
 /* ---------------------------------------------------------------- mutator */
+#ifndef FZ_STANDALONE
 static const char *const keywords[] = {
     "#VNACal 1.0\n", "#VNACal 1.1\n", "#VNACal 2.0\n", "#VNACAL 2.0\n", "#VNACAL 3.0\n", "#VNACAL 4.0\n", "#VNACal -1.0\n",
     "---\n", "...\n", "properties:", "calibrations:", "sets:", "- name: x\n", "name:", "type: T8\n", "type: U8\n", "type: TE10\n",
@@ -488,3 +631,4 @@ size_t LLVMFuzzerCustomMutator(uint8_t *data, size_t size, size_t max_size, unsi
 {
     return fz_text_mutate(data, size, max_size, seed, 0, keywords, sizeof(keywords) / sizeof(keywords[0]));
 }
+#endif /* FZ_STANDALONE */
